@@ -115,7 +115,7 @@ def squeeze(s):
             out.append(part)
         else:
             part = re.sub(r"\s+", " ", part)
-            part = re.sub(r"\s*([(){}\[\],;:&|=<>!.+*-])\s*", r"\1", part)
+            part = re.sub(r"\s*([(){}\[\],;:&|=<>!.+*@-])\s*", r"\1", part)
             out.append(part)
     s = "".join(out).strip()
     # spaces left between a literal and punctuation
@@ -296,7 +296,9 @@ def classify_body(arm, fns, facts):
         hname = md.group(1)
         if hname not in fns or not fns[hname]["notification_only"]:
             return "BUnknown", hname, "notification handler %s may produce something else than diagnostics" % hname
-        return "BNotify %s" % action, hname, "outgoing.extend(" + hname + ")"
+        if fns[hname]["store"] == "StoreUnknown":
+            return "BUnknown", hname, "notification handler %s both inserts and removes documents" % hname
+        return "BNotify %s %s" % (fns[hname]["store"], action), hname, "outgoing.extend(" + hname + ")"
     return "BUnknown", None, "unrecognised arm body: " + b[:100]
 
 
@@ -316,7 +318,9 @@ def scan_functions(src):
                              and "JsonRpcResponse" not in nb and "push_response" not in nb and "push_error" not in nb
                              and bool(re.search(r"diagnostics_notification\([^;]*\)\}$", nb))
                              and not re.search(r"\breturn\b", nb))
-        fns[name] = {"returns_response": returns_response, "notification_only": notification_only}
+        ins, rem = "documents.insert(" in nb, "documents.remove(" in nb
+        store = "StoreUnknown" if (ins and rem) else "StoreInsert" if ins else "StoreRemove" if rem else "StoreNone"
+        fns[name] = {"returns_response": returns_response, "notification_only": notification_only, "store": store}
     return fns
 
 
